@@ -150,7 +150,7 @@ PROPS = {
                        "The offset convention of the scalar validator differs from the property's wording for one class of inputs: recorded finding F6.",
         "trusted_base": COMMON_TRUST + [MODELS + "_mm256_max_epu8, _mm256_testz_si256", "Verus 0.2026.09.13 + Z3; intrinsic lane model verus/speclib_simd.rs",
                                         "seam R4: skip_ascii / err_at / load_word / load_block / padded_block stubs (Kani-checked or documented contracts, see units c13_scalar, c13_broadword, c13_avx2)"],
-        "assumptions": ["the public wrappers validate_utf8_simd (cpuid -> arbitrary boolean) and validate_utf8_broadword ARE extracted and proved to return exactly the scalar validator's result (scalar_spec, whose Ok <=> well-formed fact is unit c13_scalar's theorem, imported as an axiom); the top-level validate_utf8 (a cfg switch between validate_utf8_simd and validate_utf8_scalar) is not",
+        "assumptions": ["the public wrappers validate_utf8_simd (cpuid -> arbitrary boolean) and validate_utf8_broadword ARE extracted and proved to return exactly the scalar validator's result (scalar_spec, whose Ok <=> well-formed fact is unit c13_scalar's theorem, imported as an axiom); so is the top-level validate_utf8 in both cfg instantiations (std: the AVX2 entry point; no std: the scalar validator)",
                         "lane meaning of max_epu8 / and / xor / permute2x128 / alignr / testz is the Intel SDM's (not cross-checked natively by Kani)",
                         "little-endian target; usize is 64 bits"],
     },
